@@ -18,12 +18,14 @@
 (* Job table      info[j] = [cu, hu : unit name or "sync",                 *)
 (*                           hc : TRUE when the hash stage runs first,     *)
 (*                           len, hlen]                                    *)
-(* Unit table     U[name] = [fam : "simple" | "hmac" | "phased", L, blk,   *)
+(* Unit table     U[name] = [fam : "simple"|"hmac"|"phased"|"shamb", L, blk, *)
 (*                           pf : phase rule of a phased unit]             *)
 (***************************************************************************)
 EXTENDS Naturals, Sequences, FiniteSets
 
-CONSTANTS U,        \* unit table
+CONSTANTS LegacyCustomFlush,   \* TRUE: FLUSH_JOB_CUSTOM_* hands the job back even when its custom stage already ran
+                               \* (the library before the fix recorded in known_findings.json); FALSE: it returns NULL then
+          U,        \* unit table
           Fuel,     \* bound on loop iterations (loops that exceed it are reported, see ok)
           LogStages \* keep the stage log (model checking) or not (trace replay)
 
@@ -31,6 +33,7 @@ OS(n) == INSTANCE OooLanes WITH L <- n, MAXLEN <- 65535
 OH(n, b) == INSTANCE OooHmac WITH L <- n, MAXLEN <- 65535, BLK <- b,
                                   PADMIN <- IF b = 128 THEN 17 ELSE 9, Track <- FALSE
 OP(n) == INSTANCE OooPhased WITH L <- n, MAXLEN <- 65535
+OM(n, b) == INSTANCE OooShaMb WITH L <- n, BLK <- b, PAD <- IF b = 128 THEN 16 ELSE 8, BIG <- 2000000000
 NOJ == 0
 
 \* phase lengths of a job in a "phased" unit (U[un].pf names the rule); len in bytes
@@ -41,26 +44,40 @@ PhasesOf(pf, len) ==
       [] OTHER -> <<len>>
 
 UEmpty(un) == IF U[un].fam = "hmac" THEN OH(U[un].L, U[un].blk)!EmptyLanes
-              ELSE IF U[un].fam = "phased" THEN OP(U[un].L)!EmptyLanes ELSE OS(U[un].L)!EmptyLanes
+              ELSE IF U[un].fam = "phased" THEN OP(U[un].L)!EmptyLanes
+              ELSE IF U[un].fam = "shamb" THEN OM(U[un].L, U[un].blk)!EmptyLanes ELSE OS(U[un].L)!EmptyLanes
 USubmit(un, st, j, len) ==
     IF U[un].fam = "phased" THEN LET r == OP(U[un].L)!OSubmit(st, j, PhasesOf(U[un].pf, len)) IN [st |-> r.st, ret |-> r.ret]
+    ELSE IF U[un].fam = "shamb" THEN LET r == OM(U[un].L, U[un].blk)!OSubmit(st, j, len) IN [st |-> r.st, ret |-> r.ret]
     ELSE IF U[un].fam = "hmac" THEN LET r == OH(U[un].L, U[un].blk)!OSubmit(st, j, len) IN [st |-> r.st, ret |-> r.ret]
     ELSE LET r == OS(U[un].L)!OSubmit(st, j, len) IN [st |-> r.st, ret |-> r.ret]
 UFlush(un, st) ==
     IF U[un].fam = "phased" THEN LET r == OP(U[un].L)!OFlush(st) IN [st |-> r.st, ret |-> r.ret]
+    ELSE IF U[un].fam = "shamb" THEN LET r == OM(U[un].L, U[un].blk)!OFlush(st) IN [st |-> r.st, ret |-> r.ret]
     ELSE IF U[un].fam = "hmac" THEN LET r == OH(U[un].L, U[un].blk)!OFlush(st) IN [st |-> r.st, ret |-> r.ret]
     ELSE LET r == OS(U[un].L)!OFlush(st) IN [st |-> r.st, ret |-> r.ret]
 UBusyJobs(un, st) == { st.jil[l] : l \in 0 .. U[un].L - 1 } \ {NOJ}
 
-EmptyMachine == [u |-> [un \in DOMAIN U |-> UEmpty(un)], cd |-> {}, ad |-> {}, log |-> <<>>]
+EmptyMachine == [u |-> [un \in DOMAIN U |-> UEmpty(un)], cd |-> {}, ad |-> {}, failed |-> {}, log |-> <<>>]
 
-Completed(ms, j) == j \in ms.cd /\ j \in ms.ad
 Logged(ms, e) == IF LogStages THEN Append(ms.log, e) ELSE ms.log
+
+\* a job is finished when both stages are done or when a CUSTOM call-back reported failure (status INTERNAL_ERROR:
+\* RESUBMIT_JOB and complete_job treat every status >= COMPLETED as finished)
+Completed(ms, j) == j \in ms.failed \/ (j \in ms.cd /\ j \in ms.ad)
+\* info[j].cf : bit 0 = the custom cipher call-back fails, bit 1 = the custom hash call-back fails (0 otherwise)
+CFails(info, j) == "cf" \in DOMAIN info[j] /\ info[j].cf % 2 = 1
+HFails(info, j) == "cf" \in DOMAIN info[j] /\ info[j].cf \div 2 = 1
+RunCustomC(info, ms, j) == IF CFails(info, j) THEN [ms EXCEPT !.failed = @ \cup {j}, !.log = Logged(ms, <<"c", j, j>>)]
+                           ELSE [ms EXCEPT !.cd = @ \cup {j}, !.log = Logged(ms, <<"c", j, j>>)]
+RunCustomH(info, ms, j) == IF HFails(info, j) THEN [ms EXCEPT !.failed = @ \cup {j}, !.log = Logged(ms, <<"h", j, j>>)]
+                           ELSE [ms EXCEPT !.ad = @ \cup {j}, !.log = Logged(ms, <<"h", j, j>>)]
 
 \* SUBMIT_JOB_CIPHER: a synchronous mode does the work and returns the job itself
 SubCipher(info, ms, j) ==
     LET cu == info[j].cu IN
-    IF cu = "sync"
+    IF cu = "custom" THEN [ms |-> RunCustomC(info, ms, j), ret |-> j]
+    ELSE IF cu = "sync"
     THEN [ms |-> [ms EXCEPT !.cd = @ \cup {j}, !.log = Logged(ms, <<"c", j, j>>)], ret |-> j]
     ELSE LET r == USubmit(cu, ms.u[cu], j, info[j].len) IN
          [ms |-> [ms EXCEPT !.u[cu] = r.st,
@@ -70,7 +87,8 @@ SubCipher(info, ms, j) ==
 
 SubHash(info, ms, j) ==
     LET hu == info[j].hu IN
-    IF hu = "sync"
+    IF hu = "custom" THEN [ms |-> RunCustomH(info, ms, j), ret |-> j]
+    ELSE IF hu = "sync"
     THEN [ms |-> [ms EXCEPT !.ad = @ \cup {j}, !.log = Logged(ms, <<"h", j, j>>)], ret |-> j]
     ELSE LET r == USubmit(hu, ms.u[hu], j, info[j].hlen) IN
          [ms |-> [ms EXCEPT !.u[hu] = r.st,
@@ -82,12 +100,18 @@ SubHash(info, ms, j) ==
 FlCipher(info, ms, j) ==
     LET cu == info[j].cu IN
     IF cu = "sync" THEN [ms |-> ms, ret |-> NOJ]
+    ELSE IF cu = "custom"      \* FLUSH_JOB_CUSTOM_CIPHER(job): JOB_CUSTOM_CIPHER runs the call-back only if it has not run yet
+    THEN (IF j \in ms.cd THEN [ms |-> ms, ret |-> IF LegacyCustomFlush THEN j ELSE NOJ]
+          ELSE [ms |-> RunCustomC(info, ms, j), ret |-> j])
     ELSE LET r == UFlush(cu, ms.u[cu]) IN
          [ms |-> [ms EXCEPT !.u[cu] = r.st, !.cd = IF r.ret = NOJ THEN @ ELSE @ \cup {r.ret},
                             !.log = Logged(ms, <<"fc", j, r.ret>>)], ret |-> r.ret]
 FlHash(info, ms, j) ==
     LET hu == info[j].hu IN
     IF hu = "sync" THEN [ms |-> ms, ret |-> NOJ]
+    ELSE IF hu = "custom"
+    THEN (IF j \in ms.ad THEN [ms |-> ms, ret |-> IF LegacyCustomFlush THEN j ELSE NOJ]
+          ELSE [ms |-> RunCustomH(info, ms, j), ret |-> j])
     ELSE LET r == UFlush(hu, ms.u[hu]) IN
          [ms |-> [ms EXCEPT !.u[hu] = r.st, !.ad = IF r.ret = NOJ THEN @ ELSE @ \cup {r.ret},
                             !.log = Logged(ms, <<"fh", j, r.ret>>)], ret |-> r.ret]
